@@ -375,9 +375,13 @@ func EvalOne(ctx context.Context, s *eval.State, what string, out io.Writer, opt
 	formatted string,
 ) {
 	if !options.PanicOk {
+		savedOut := s.Out
 		defer func() {
 			if r := recover(); r != nil {
 				panicked = true
+				// A panic inside a function call skips the restoration of the output writer (swapped for a capture
+				// buffer during each call): without this all later output of the session would go to that lost buffer.
+				s.Out = savedOut
 				log.Critf("Caught panic: %v", r)
 				if log.LogDebug() {
 					log.Debugf("Dumping stack trace")
